@@ -72,15 +72,18 @@ def strategy(tier):
 
 def warmup():
     """Compile / load the numba kernels used while building grids, before the clock starts."""
-    check({"src": "frac", "frac": {"dim": 3, "nx": [2, 2, 2], "phys": [2.0, 2.0, 2.0],
-                                    "fracs": [{"axis": 0, "pos": 1, "lo": [0, 0], "hi": [2, 2]},
-                                              {"axis": 1, "pos": 1, "lo": [0, 0], "hi": [2, 2]}]},
-           "sub": [0, 1, 2], "qseed": 0})
-    check({"src": "frac", "frac": {"dim": 2, "nx": [2, 2], "phys": [2.0, 2.0],
-                                    "fracs": [{"axis": 0, "pos": 1, "lo": [0], "hi": [2]}]}, "sub": None, "qseed": 0})
-    for kind, dim, n in (("tet", 3, [1, 1, 1]), ("tri", 2, [2, 2]), ("cart", 1, [3])):
-        check({"src": "plain", "grid": {"kind": kind, "dim": dim, "n": n, "phys": [1.0] * dim, "pamp": 0.0, "pseed": 0,
-                                        "affine": None, "rigid": None}, "sub": None, "qseed": 1})
+    try:  # only meant to compile / load kernels; failures are reported by the search itself
+        check({"src": "frac", "frac": {"dim": 3, "nx": [2, 2, 2], "phys": [2.0, 2.0, 2.0],
+                                        "fracs": [{"axis": 0, "pos": 1, "lo": [0, 0], "hi": [2, 2]},
+                                                  {"axis": 1, "pos": 1, "lo": [0, 0], "hi": [2, 2]}]},
+               "sub": [0, 1, 2], "qseed": 0})
+        check({"src": "frac", "frac": {"dim": 2, "nx": [2, 2], "phys": [2.0, 2.0],
+                                        "fracs": [{"axis": 0, "pos": 1, "lo": [0], "hi": [2]}]}, "sub": None, "qseed": 0})
+        for kind, dim, n in (("tet", 3, [1, 1, 1]), ("tri", 2, [2, 2]), ("cart", 1, [3])):
+            check({"src": "plain", "grid": {"kind": kind, "dim": dim, "n": n, "phys": [1.0] * dim, "pamp": 0.0, "pseed": 0,
+                                            "affine": None, "rigid": None}, "sub": None, "qseed": 1})
+    except Exception:  # noqa: BLE001
+        pass
 
 
 _NODES_PER_CELL = {("cart", 1): 2, ("cart", 2): 4, ("cart", 3): 8, ("tensor", 1): 2, ("tensor", 2): 4,
